@@ -257,6 +257,12 @@ def _correspond(ctx, rng):
             ctx.hist('corr_kind', kind)
             ctx.hist('corr_style', info['style'])
             ctx.hist('corr_cells', 10 * (m.t.shape[1] // 10))
+            for nm in [LAZY[int(j)] for j in rng.permutation(len(LAZY))][:4]:      # whatever was read before must not matter
+                try:
+                    v = getattr(m, nm)
+                    v() if callable(v) and not hasattr(v, 'shape') else None
+                except Exception:
+                    pass
             try:
                 rep = (kind, info['style'], m.t.shape[1], _shares(m))
                 out2 = tables2(m)
@@ -550,6 +556,36 @@ def oracle_on_facet(kind):
     return bad
 
 
+LAZY = ['facets', 't2f', 'f2t', 'edges', 't2e', 'f2e', 'nfacets', 'nedges', 'p2e', 'boundary_facets', 'boundary_nodes']
+
+
+def read_tables(kind, p, t, order):
+    """a FRESH mesh object, its lazy tables read in the given order; name -> value (or the exception type it raises)"""
+    m = M.build(kind, p.copy(), t.copy())
+    out = {}
+    for nm in order:
+        try:
+            v = getattr(m, nm)
+            v = v() if callable(v) and not hasattr(v, 'shape') else v
+            out[nm] = None if v is None else (np.asarray(v.toarray() if hasattr(v, 'toarray') else v).tolist())
+        except Exception as ex:
+            out[nm] = 'raises ' + type(ex).__name__
+    return out
+
+
+def oracle_access_order(kind, p, t, rng):
+    """every derived table is the same whatever was read before (lazy properties must not leak by-products into each other)"""
+    ref = read_tables(kind, p, t, LAZY)
+    orders = [['f2e'] + [x for x in LAZY if x != 'f2e'], list(reversed(LAZY))] + [[LAZY[int(i)] for i in rng.permutation(len(LAZY))] for _ in range(2)]
+    for order in orders:
+        got = read_tables(kind, p, t, order)
+        diff = [nm for nm in LAZY if got[nm] != ref[nm]]
+        if diff:
+            nm = diff[0]
+            return [f'reading the tables in the order {order} gives {nm} = {str(got[nm])[:80]} but in the order {LAZY} it is {str(ref[nm])[:80]}']
+    return []
+
+
 def euler_defect(kind, m):
     """V - E + F - C (3-D), V - F + C (2-D), V - C (1-D) minus 1: zero for a mesh of a ball"""
     nv, nf, nt = m.p.shape[1], m.facets.shape[1], m.t.shape[1]
@@ -583,6 +619,13 @@ def _oracle(ctx, rng):
                      f'{got_b[:8]}... / {got_i[:8]}... are not the vertices of single-neighbour facets and their complement among the '
                      f'{nv2} vertices (the mesh has {m2.p.shape[1]} points)',
                      {'kind': cls.__name__, 'refined': nref, 'table': 'second-order-nodes'})
+    for kind in KINDS:
+        for _ in range(2):
+            pa, ta, infoa = M.gen_raw(rng, kind, maxcells=8)
+            ctx.count(('access-order', kind, ta.tolist()), nontrivial=True)
+            for msg in oracle_access_order(kind, pa, ta, rng):
+                ctx.fail(f'{kind}:access-order', f'{M.mesh_class(kind).__name__}: {msg}',
+                         {'kind': kind, 'p': pa.tolist(), 't': ta.tolist(), 'table': 'access-order', 'info': infoa})
     for kind in KINDS:
         ctx.count(('refdom', kind), nontrivial=False)
         for table, msg in oracle_refdom(kind):
@@ -696,6 +739,11 @@ def replay(ctx, data):
             ctx.fail(f"{inp['kind']}:on_facet", msg, inp)
         for table, msg in oracle_refdom(inp['kind']):
             ctx.fail(f"{inp['kind']}:refdom-{table}", msg, inp)
+        ctx.log('replay', data.get('key'), '->', [f['key'] for f in ctx.failures] or 'no failure on this tree')
+        return
+    if inp.get('table') == 'access-order':
+        for msg in oracle_access_order(inp['kind'], np.array(inp['p'], dtype=float), np.array(inp['t']), np_seed(ctx, 11)):
+            ctx.fail(data['key'], msg, inp)
         ctx.log('replay', data.get('key'), '->', [f['key'] for f in ctx.failures] or 'no failure on this tree')
         return
     m = M.build(inp['kind'], np.array(inp['p'], dtype=float), np.array(inp['t']))
